@@ -125,3 +125,10 @@ Section Appliers.
         unfold py_impl_ModifierApplierForSetupPhase, py_impl_ModifierApplierForNonSetupPhase; pyoks; reflexivity.
   Qed.
 End Appliers.
+
+(** the names of the sandbox sub directories (tcfs/sds.py) that [cd -rel-act|-rel-tmp|-rel-result] resolves to *)
+Theorem tie_sds_dir_names :
+  (exists s, py_sds_SUB_DIRECTORY__ACT = VStr s /\ [str_codes s] = sds_act) /\
+  (exists s, py_sds_SUB_DIRECTORY__TMP_USER = VStr s /\ [str_codes s] = sds_tmp) /\
+  (exists s, py_sds_SUB_DIRECTORY__RESULT = VStr s /\ [str_codes s] = sds_result).
+Proof. repeat split; eexists; split; reflexivity. Qed.
